@@ -138,11 +138,19 @@ class Ref:
 
         q = darsia.quadrature
         if l1_mode_name == "RAVIART_THOMAS":
+            # numerical integration of the RT0 field: the library's rule is part of the
+            # discretisation (checked on its own by C15), so it is taken from the library
             pts, w = q.gauss_reference_cell(self.dim, "max")
         elif l1_mode_name == "CONSTANT_SUBCELL_PROJECTION":
-            pts, w = q.reference_cell_corners(self.dim)
+            # documented as the projection onto constants on the 2^dim subcells = corner
+            # rule with equal weights: part of the definition, written out independently
+            import itertools
+
+            pts = np.array(list(itertools.product((0.0, 1.0), repeat=self.dim)))
+            w = np.full(len(pts), 0.5**self.dim)
         else:
-            pts, w = q.gauss_reference_cell(self.dim, 0)
+            # documented as the cell-wise L2 projection onto constants = midpoint rule
+            pts, w = np.full((1, self.dim), 0.5), np.array([1.0])
         pts = np.asarray(pts, dtype=float).reshape(len(w), -1)
         return pts, np.asarray(w, dtype=float)
 
